@@ -1347,6 +1347,45 @@ def flatten_row_tables(func):
     return func
 
 
+# ----------------------------------------------------------------------------------------------------------- copy coalescing
+
+def coalesce_copies(func):
+    """Copy coalescing at the top level of a function: `A = x` / `A, B = x, y` where the local x is not used afterwards and the name A
+    does not occur before, is the same program with x spelled A from the start (the copy statement disappears).  This is what is
+    left of `A, B = self._stage(..)` after the stage was inlined: the tables the stage built and returned are the caller's tables."""
+    params = {a.arg for a in ast.walk(func.args) if isinstance(a, ast.arg)}
+    changed = True
+    while changed:
+        changed = False
+        for i, st in enumerate(func.body):
+            if not (isinstance(st, ast.Assign) and len(st.targets) == 1):
+                continue
+            t, v = st.targets[0], st.value
+            if isinstance(t, ast.Name) and isinstance(v, ast.Name):
+                pairs = [(t.id, v.id)]
+            elif isinstance(t, (ast.Tuple, ast.List)) and isinstance(v, (ast.Tuple, ast.List)) and len(t.elts) == len(v.elts) \
+                    and all(isinstance(x, ast.Name) for x in list(t.elts) + list(v.elts)):
+                pairs = [(a.id, b.id) for a, b in zip(t.elts, v.elts)]
+            else:
+                continue
+            srcs, dsts = [b for _, b in pairs], [a for a, _ in pairs]
+            if len(set(srcs)) != len(srcs) or len(set(dsts)) != len(dsts) or set(srcs) & set(dsts) or set(srcs) & params:
+                continue
+            before = {n.id for b in func.body[:i] for n in ast.walk(b) if isinstance(n, ast.Name)} | \
+                     {n.name for b in func.body[:i] for n in ast.walk(b) if isinstance(n, (ast.FunctionDef, ast.ClassDef))}
+            after = {n.id for b in func.body[i + 1:] for n in ast.walk(b) if isinstance(n, ast.Name)}
+            if set(dsts) & (before | params) or set(srcs) & after or not set(srcs) <= before:
+                continue
+            if any(isinstance(n, (ast.Global, ast.Nonlocal)) for n in ast.walk(func)):
+                continue
+            ren = dict(zip(srcs, dsts))
+            func.body[:i] = [_Rename(ren).visit(b) for b in func.body[:i]]
+            del func.body[i]
+            changed = True
+            break
+    return func
+
+
 def normalize_function(func, tables: dict | None = None):
     """the local normalisations (no knowledge of other functions needed); `tables`: module-level literal tables (module_tables)"""
     try:
